@@ -41,7 +41,9 @@ def family():
         out.append(("mixed:%s:%r" % (opt, off), (names, doms_a, opt, obj, off, rows_a)))
     # every domain class alone and next to a free variable on either side
     classes = [("Real", -INF, INF), ("Real", -2.0, INF), ("Real", -INF, 3.5), ("Real", -2.0, 2.0), ("Real", 0.0, INF), ("Real", 0.0, 0.0), ("Real", -INF, 0.0),
-               ("NonNegativeReal", 0.0, INF), ("NonNegativeReal", 0.0, 10.0), ("NonNegativeReal", 2.0, INF), ("NonNegativeReal", 2.0, 10.0)]
+               ("NonNegativeReal", 0.0, INF), ("NonNegativeReal", 0.0, 10.0), ("NonNegativeReal", 2.0, INF), ("NonNegativeReal", 2.0, 10.0),
+               # bounds that differ from 0 / from each other by less than the crate's comparison tolerance (1e-5) are bounds all the same
+               ("NonNegativeReal", 4e-6, INF), ("NonNegativeReal", 4e-6, 10.0), ("NonNegativeReal", 0.0, 4e-6), ("Real", -4e-6, INF), ("Real", -INF, 4e-6), ("Real", -4e-6, 4e-6), ("Real", 1.0, 1.000004)]
     for k, d in enumerate(classes):
         for pos in range(3):
             doms = [("Real", -INF, INF), ("NonNegativeReal", 0.0, INF), ("Real", -INF, INF)]
